@@ -34,6 +34,7 @@ type Plan struct {
 	// threshold RSA
 	Key      string `json:"key,omitempty"`
 	Cache    bool   `json:"cache,omitempty"`
+	Rotate   bool   `json:"rotate,omitempty"` // restarting players load the new share into the object that held the previous deal's share
 	Blind    bool   `json:"blind,omitempty"`
 	Parallel bool   `json:"parallel,omitempty"`
 	PSS      bool   `json:"pss,omitempty"`
@@ -106,6 +107,7 @@ func gen(r *core.PRNG, tier string) any {
 		p.T = r.Range(1, p.N) // threshold k
 		p.Cache, p.Blind, p.Parallel, p.PSS = r.Bool(), r.Chance(1, 3), r.Bool(), r.Bool()
 		p.Arrive = subsetPlan(r, p.N, p.T)
+		p.Rotate = r.Chance(1, 3)
 	}
 	for _, a := range p.Arrive {
 		if r.Chance(1, 5) {
@@ -339,6 +341,16 @@ func execRSA(p *Plan, run *core.Run) {
 		run.Violate(comp+".PadHash", "error", "%v", err)
 		return
 	}
+	// key rotation: the players' KeyShare objects still hold the previous deal (other
+	// seed, other threshold, the other cache setting) when the new shares are loaded
+	var old []tssrsa.KeyShare
+	if p.Rotate && len(p.Restart) > 0 {
+		old, err = tssrsa.Deal(core.NewStream(p.Seed+99), l, 1+(k%l), key, !p.Cache)
+		if err != nil {
+			run.Violate(comp+".Deal", "error-on-valid-parameters", "l=%d k=%d key %s: %v", l, 1+(k%l), p.Key, err)
+			return
+		}
+	}
 	for _, h := range p.Restart {
 		if h < 1 || h > p.N {
 			continue
@@ -349,6 +361,10 @@ func execRSA(p *Plan, run *core.Run) {
 			return
 		}
 		var ks tssrsa.KeyShare
+		if old != nil {
+			ks = old[h-1]
+			run.Fault("history:keyshare-object-held-previous-deal")
+		}
 		if err := ks.UnmarshalBinary(b); err != nil {
 			run.Violate(comp+".KeyShare.UnmarshalBinary", "rejects-own-encoding", "player %d: %v", h, err)
 			return
